@@ -72,6 +72,8 @@ pub broadcast proof fn axiom_sk_len(k: SigningKey) ensures (#[trigger] k.sk_byte
 pub broadcast proof fn axiom_sig_len(k: Signature) ensures (#[trigger] k.sig_bytes()).len() == 64 {}
 pub broadcast group group_key_lens { axiom_vk_len, axiom_sk_len, axiom_sig_len }
 } // mod ed25519_dalek
+#[verifier::external_body]
+pub fn generate_signing_key() -> ed25519_dalek::SigningKey { unimplemented!() }
 pub mod crc32fast {
 use vstd::prelude::*;
 /// CRC-32 (IEEE) of a byte string: uninterpreted
